@@ -7,3 +7,7 @@ import AnyTLS.Props.C06
 #print axioms AnyTLS.C06.truncated_never_accepted
 #print axioms AnyTLS.C06.skip_exact
 #print axioms AnyTLS.C06.no_session_without_accept
+#print axioms AnyTLS.C06.gen_auth_gate_bare
+#print axioms AnyTLS.C06.bare_gate_is_authServer
+#print axioms AnyTLS.C06.gate_accept_iff
+#print axioms AnyTLS.C06.timed_retry_accepts_stray_prefix
